@@ -124,6 +124,12 @@ def SameLocTokens : List String → List String → Prop
   | g :: gs, h :: hs => Lex.all g.toList = Lex.all h.toList ∧ SameLocTokens gs hs
   | _, _ => False
 
+/-- the `i`-th texts of two sessions have the same tokens (wherever they stand) -/
+def SameTokens : List String → List String → Prop
+  | [], [] => True
+  | g :: gs, h :: hs => toksOf g.toList = toksOf h.toList ∧ SameTokens gs hs
+  | _, _ => False
+
 /-- everything a session wrote to standard output -/
 def transcript (outs : List ReplOut) : String := String.join (outs.map (·.stdout))
 
